@@ -137,11 +137,11 @@ Theorem C16_template_split_dollar_refuted :
 Proof. exact template_split_dollar_refuted. Qed.
 Print Assumptions C16_template_split_dollar_refuted.
 
-Theorem C16_extend_schema_refuted :
+Theorem C16_extend_schema_directives_only :
   just_run (print_tsdoc_ext [TSSchemaExt (mkSchemaExt pos0 [dir_a] [])])
-  = s "extend schema @a{" ++ [LF] ++ s "}" ++ [LF; LF].
-Proof. exact extend_schema_refuted. Qed.
-Print Assumptions C16_extend_schema_refuted.
+  = s "extend schema @a" ++ [LF; LF].
+Proof. exact extend_schema_directives_only. Qed.
+Print Assumptions C16_extend_schema_directives_only.
 
 Theorem C16_extend_union_refuted :
   just_run (print_tsdoc_ext [TSTypeExt (TEUnion pos0 (mkId (s "U") pos0) [dir_a] [])])
